@@ -495,6 +495,47 @@ func timeDrv(args []string) {
 			runHistory(w, rng, at(ws+3*dayMs), base, mk(append([]int64{ws, ws + 1}, rest...)...), "boundary")
 		}
 	}
+	// start times expressed in a location with daylight saving, in the week that BEGINS with a change of the clocks (one
+	// civil day back from there is 23 or 25 hours): every day of that week, times of day around UTC midnight (and around
+	// 21:00 UTC = GLONASS midnight), every constellation
+	{
+		dstZones := []*time.Location{utils.LocationParis, utils.LocationLondon}
+		if ny, err := time.LoadLocation("America/New_York"); err == nil {
+			dstZones = append(dstZones, ny)
+		}
+		changes := []time.Time{ // Sundays on which clocks change in Europe (the first five) or North America (the last two)
+			time.Date(2014, 10, 26, 0, 0, 0, 0, time.UTC), time.Date(2021, 10, 31, 0, 0, 0, 0, time.UTC), time.Date(2023, 10, 29, 0, 0, 0, 0, time.UTC),
+			time.Date(2023, 3, 26, 0, 0, 0, 0, time.UTC), time.Date(2024, 3, 31, 0, 0, 0, 0, time.UTC),
+			time.Date(2023, 11, 5, 0, 0, 0, 0, time.UTC), time.Date(2023, 3, 12, 0, 0, 0, 0, time.UTC)}
+		tods := []int64{5 * 60000, 30 * 60000, 59 * 60000, 61 * 60000, 150 * 60000, 21*3600000 + 30*60000, 23*3600000 + 30*60000}
+		for si, sun := range changes {
+			base := sun.AddDate(0, 0, -14)
+			for ci, c := range conNames {
+				off := weekStart(c, weekMs) - weekMs
+				ws := 2*weekMs + off
+				for d := int64(1); d <= 6; d++ {
+					for ti, tod := range tods {
+						for zi, z := range dstZones {
+							if !tr.Thorough() && !((d == int64(1+(si+ci)%6) || d == 6) && (ti == 1 || ti == 5) && zi == (si+ci+int(d))%len(dstZones)) {
+								continue
+							}
+							t := 2*weekMs + d*dayMs + tod
+							if t < ws+1000 {
+								continue
+							}
+							u2 := ws + weekMs - 1
+							if u2 < t+60000 {
+								u2 = t + 60000
+							}
+							obs := []obsSpec{{c: c, mt: conTypes[c][0], u: t + 1000}, {c: c, mt: conTypes[c][1], u: t + 60000},
+								{c: c, mt: conTypes[c][0], u: u2}, {c: c, mt: conTypes[c][1], u: ws + weekMs + 5000}}
+							runHistory(w, rng, base.Add(time.Duration(t)*time.Millisecond).In(z), base, obs, "dst-week")
+						}
+					}
+				}
+			}
+		}
+	}
 	// the application: displayrtcm3 <file> <date> with every date of the week of the recording, on machines in
 	// several time zones (C17: "displaying a recorded file with any date of that week")
 	if bin := os.Getenv("VERIF_DISPLAY_BIN"); bin != "" && mode != "c06" {
